@@ -354,6 +354,20 @@ def _walk_cases():
                "var t = typeof h; var called; try { called = typeof h === 'function' ? h() : 'n/a' } catch (e) { called = 'threw' }")
         out.append(("walk after: exposed callable returning a Python %s" % kind,
                     {"src": src, "result": "[h, keep, viaCall, viaMethod, called]", "host_returns": kind}))
+    # built-in functions standing in for script functions (getter, setter, conversions, callbacks): whatever they return or
+    # skip returning must still arrive as a JavaScript value
+    for fn in ["console.log", "Math.max", "parseInt", "[].push", "[].pop", "''.trim", "JSON.stringify", "Object.keys", "isNaN", "String",
+               "Array", "Object", "hostfn", "[].forEach", "/a/.exec", "Math.random", "(function () {}).call", "eval", "RegExp"]:
+        src = ("var F = %s, got = []; function T(f) { try { got.push(f()) } catch (e) { got.push(e) } }\n"
+               "var o = {}; T(function () { Object.defineProperty(o, 'x', {get: F, set: F}); return [o.x] }); T(function () { o.x = 1; return o.x });\n"
+               "var v = {valueOf: F, toString: F, toJSON: F}; T(function () { return v + 1 }); T(function () { return String(v) }); "
+               "T(function () { return JSON.stringify({k: v}) }); T(function () { return [v] + '' }); T(function () { return ({})[v] });\n"
+               "T(function () { return [1, 2].map(F) }); T(function () { return [3, 1].sort(F) }); T(function () { return [1].filter(F) }); "
+               "T(function () { return [1, 2].reduce(F) }); T(function () { return 'ab'.replace(/a/, F) }); T(function () { return 'ab'.replace('b', F) });\n"
+               "T(function () { return JSON.stringify({a: 1}, F) }); T(function () { return JSON.parse('[1]', F) }); "
+               "T(function () { return new F(1) }); T(function () { return F.call(null, 1) }); T(function () { return F.bind(null)(1) }); "
+               "T(function () { return F.apply(null, [1]) });" % fn)
+        out.append(("walk after: built-in %s used as getter, setter, conversion method and callback" % fn, {"src": src, "result": "got"}))
     for ck in CALLABLE_KINDS:
         for how in ("to_js", "set", "nested"):
             for kind in ("int", "tuple", "nested", "object", "none", "lambda"):
